@@ -406,6 +406,15 @@ def lean_phase(ctx, extra_targets=()):
     if ok:
         n, d, details = audit(ctx.prop)
         ctx.obligations, ctx.discharged, ctx.audit_details = n, d, details
+        if ctx.tier == "thorough":
+            # independent re-check of the compiled proofs by leanchecker (replays every declaration of the module
+            # and its imports through the kernel); one more obligation
+            t0 = time.time()
+            p = subprocess.run(["lake", "env", "leanchecker", f"Props.{ctx.prop}"], cwd=LEAN, capture_output=True, text=True)
+            ctx.obligations += 1
+            ctx.discharged += 1 if p.returncode == 0 else 0
+            ctx.audit_details["leanchecker"] = {"module": f"Props.{ctx.prop}", "ok": p.returncode == 0, "wall_s": round(time.time() - t0, 1),
+                                                "output": (p.stdout + p.stderr)[-400:]}
     else:
         ctx.discharged = 0
         ctx.audit_details = {"build": "failed"}
